@@ -1481,11 +1481,16 @@ func (w *Worker) builtin(s *State, f *Frame, b *ssa.Builtin, args []Value, dst s
 }
 
 var redirects = map[string]string{
-	"(*sync.Once).Do":  "ModelOnceDo",
-	"(*sync.Pool).Get": "ModelPoolGet",
-	"(*sync.Pool).Put": "ModelPoolPut",
-	"sort.SliceStable": "ModelSliceStable",
-	"sort.Slice":       "ModelSliceStable",
+	"(*sync.Once).Do":         "ModelOnceDo",
+	"(*sync.Pool).Get":        "ModelPoolGet",
+	"(*sync.Pool).Put":        "ModelPoolPut",
+	"sort.SliceStable":        "ModelSliceStable",
+	"sort.Slice":              "ModelSliceStable",
+	"(*sync.Map).Load":        "ModelSyncMapLoad",
+	"(*sync.Map).Store":       "ModelSyncMapStore",
+	"(*sync.Map).LoadOrStore": "ModelSyncMapLoadOrStore",
+	"(*sync.Map).Delete":      "ModelSyncMapDelete",
+	"(*sync.Map).Range":       "ModelSyncMapRange",
 }
 
 // unwind continues panic propagation (or finishes a recovered frame).
